@@ -54,13 +54,18 @@ pub fn run_random(rec: &mut Rec, seed: u64, run: u64, nops: usize) {
         ev.insert("run".into(), json!(run));
         ev.insert("step".into(), json!(step));
         let (name, actor, args, rs, dpre, dpost);
-        match r.gen_range(0..100) {
+        // the first steps of most runs climb the amplification by legitimate tenfold ramps (100 -> 10^3 -> ... -> 10^6),
+        // so that the random phase also starts from large values
+        let climb = (run % 5) as usize;
+        let forced = if step < 2 * climb { Some(step % 2) } else { None };
+        let sel = match forced { Some(0) => 0, Some(_) => 50, None => r.gen_range(0..100) };
+        match sel {
             0..=44 => {
-                let fa: u64 = match r.gen_range(0..12) {
+                let fa: u64 = if forced.is_some() { cur.saturating_mul(10).min(1_000_000) } else { match r.gen_range(0..12) {
                     0 => cur.saturating_mul(10), 1 => cur.saturating_mul(10) + 1, 2 => (cur / 10).max(1), 3 => (cur - 1) / 10, 4 => (cur + 9) / 10,
-                    5 => 0, 6 => 1, 7 => 1_000_000, 8 => 1_000_001, 9 => cur, 10 => cur.saturating_mul(2).min(1_000_000), _ => gen::log_uniform(&mut r, 1, 1_000_000) as u64 };
-                let fb: u64 = match r.gen_range(0..6) { 0 => height + MIN_RAMP_BLOCKS - 1, 1 => height + MIN_RAMP_BLOCKS, 2 => height, _ => height + MIN_RAMP_BLOCKS + r.gen_range(0..50_000u64) };
-                let by_owner = r.gen_bool(0.9);
+                    5 => 0, 6 => 1, 7 => 1_000_000, 8 => 1_000_001, 9 => cur, 10 => cur.saturating_mul(2).min(1_000_000), _ => gen::log_uniform(&mut r, 1, 1_000_000) as u64 } };
+                let fb: u64 = if forced.is_some() { height + MIN_RAMP_BLOCKS } else { match r.gen_range(0..6) { 0 => height + MIN_RAMP_BLOCKS - 1, 1 => height + MIN_RAMP_BLOCKS, 2 => height, _ => height + MIN_RAMP_BLOCKS + r.gen_range(0..50_000u64) } };
+                let by_owner = forced.is_some() || r.gen_bool(0.9);
                 let sender = if by_owner { owner.clone() } else { user.clone() };
                 dpre = f.w.digest();
                 rs = f.w.exec(&sender, &f.hub.pool_factory.clone(), &white_whale_std::pool_network::factory::ExecuteMsg::UpdateTrioConfig {
@@ -71,7 +76,7 @@ pub fn run_random(rec: &mut Rec, seed: u64, run: u64, nops: usize) {
                 args = json!({"fa": fa.to_string(), "fb": fb.to_string()});
             }
             45..=64 => {
-                let blocks = *gen::pick(&mut r, &[1u64, 1, 100, 5_000, 9_999, 10_000, 10_001, 30_000]);
+                let blocks = if forced.is_some() { MIN_RAMP_BLOCKS } else { *gen::pick(&mut r, &[1u64, 1, 100, 5_000, 9_999, 10_000, 10_001, 30_000, 60_000]) };
                 f.w.advance(blocks * 6_000_000_000, blocks);
                 dpre = String::new(); dpost = String::new();
                 rs = Res::Ok(Default::default());
